@@ -20,3 +20,9 @@ for k,v in per.items():
 print('stray',stray[:5]); print('frontend',fe[:5])
 print(sum(1 for v in per.values() if v['verdict']=='discharged'),'/',len(per))
 if fe or vr is None: print(r['raw_err_tail'][-1500:])
+if '--times' in sys.argv:
+    for k,v in sorted(per.items(), key=lambda kv: -(kv[1]['ms'] or 0))[:12]: print('   ', k, v['ms'], v.get('rlimit'))
+    try:
+        for m in r['json']['times-ms']['smt']['smt-run-module-times']:
+            for f in sorted(m.get('function-breakdown', []), key=lambda f: -f.get('time',0))[:8]: print('      ', f['function'].split('::')[-1], f.get('time'), f.get('rlimit'), f.get('success'))
+    except Exception as e: print(e)
